@@ -23,6 +23,7 @@ import Drivers.Quality
 import Drivers.Unit
 import Drivers.Kexact
 import Drivers.SmoothInterp
+import Drivers.Rcb
 
 /-! `refdrv <driver> [args]` : dispatch to a line-protocol driver. One match arm per driver, on one line. -/
 
@@ -51,6 +52,7 @@ def main (args : List String) : IO UInt32 := do
   | "unit" :: rest => Drivers.Unit.run rest
   | "kexact" :: rest => Drivers.Kexact.run rest
   | "smoothinterp" :: rest => Drivers.SmoothInterp.run rest
+  | "rcb" :: rest => Drivers.Rcb.run rest
   | _ =>
     IO.eprintln s!"refdrv: unknown driver {args}"
     return 2
